@@ -15,12 +15,16 @@ vars == <<seq>>
 BigPos == { x \in {0, 1, 2, 3, MaxLen \div 4, MaxLen \div 2 - 1, MaxLen \div 2, MaxLen \div 2 + 1, (3 * MaxLen) \div 4,
                    MaxLen - 5, MaxLen - 4, MaxLen - 3, MaxLen - 2} : x >= 0 /\ x <= MaxLen - 2 }
 BigK(j, k) == [i \in 1..(MaxLen - 1) |-> IF i - 1 < j THEN 0 ELSE IF i - 1 < k THEN MaxVal \div 2 ELSE MaxVal]
-Entries == IF Kind = "fixed" THEN 0..(Pow2(B) - 1) ELSE IF Kind = "leakybig" THEN BigPos ELSE 0..MaxVal
+\* "diag": dyadic models (entries are exponents k_i, probabilities 2^k_i summing to 2^P)
+DyadicSum(s) == SumSeq([i \in 1..Len(s) |-> Pow2(s[i])])
+Refs(n) == { q \in [1..n -> {0, 1, 2, 4}] : SumSeq(q) = 4 }
+Entries == IF Kind = "diag" THEN 0..(P - 1) ELSE IF Kind = "fixed" THEN 0..(Pow2(B) - 1) ELSE IF Kind = "leakybig" THEN BigPos ELSE 0..MaxVal
 Init == seq = <<>>
 Next == \E x \in Entries :
           /\ Len(seq) < (IF Kind = "leakybig" THEN 2 ELSE MaxLen)
           /\ (Kind \in {"leaky", "leakybig"} /\ seq # <<>> => x >= seq[Len(seq)])       \* step CDFs are monotone
           /\ (Kind = "fast" => SumSeq(seq) + x <= MaxVal)
+          /\ (Kind = "diag" => DyadicSum(seq) + Pow2(x) <= Pow2(P))
           /\ seq' = Append(seq, x)
 Spec == Init /\ [][Next]_vars
 
@@ -50,9 +54,19 @@ EmitLeakyBig == (Kind = "leakybig" /\ Len(seq) = 2) => PrintT(<<"CASE", ToJson(
     [k |-> "leaky", sparse |-> TRUE, B |-> B, P |-> P, K |-> BigK(seq[1], seq[2]), m |-> BitLen(MaxVal) - 1, n |-> MaxLen,
      accept |-> AcceptLeaky(MaxLen, P),
      table |-> IF AcceptLeaky(MaxLen, P) THEN Rows(LeakyTable(BigK(seq[1], seq[2]), BitLen(MaxVal) - 1, MaxLen, 0, P)) ELSE <<>>])>>)
+EmitDiag == (Kind = "diag" /\ Len(seq) >= 2 /\ DyadicSum(seq) = Pow2(P)) => PrintT(<<"CASE", ToJson(
+    [k |-> "diag", B |-> B, P |-> P, exps |-> seq, probs |-> [i \in 1..Len(seq) |-> Pow2(seq[i])],
+     entropy_num |-> EntropyNum(seq, P),
+     refs |-> { [q |-> r, cross_num |-> CrossNum(seq, r, P), kl_num |-> KlNum(seq, r, P),
+                 rcross_num |-> IF \A i \in 1..Len(seq) : r[i] > 0 THEN RevCrossNum(seq, r, P) ELSE -1,
+                 rkl_num |-> IF \A i \in 1..Len(seq) : r[i] > 0 THEN RevKlNum(seq, r, P) ELSE -1,
+                 allpos |-> \A i \in 1..Len(seq) : r[i] > 0] : r \in Refs(Len(seq)) }])>>)
+\* textbook identities that the exact values must satisfy (Gibbs: both KL divergences are non-negative)
+DiagLaws == (Kind = "diag" /\ Len(seq) >= 2 /\ DyadicSum(seq) = Pow2(P)) =>
+    \A r \in Refs(Len(seq)) : KlNum(seq, r, P) >= 0 /\ ((\A i \in 1..Len(seq) : r[i] > 0) => RevKlNum(seq, r, P) >= 0)
 EmitUniform == (Kind = "uniform" /\ seq = <<>>) => PrintT(<<"CASE", ToJson(
     [k |-> "uniform", B |-> B, P |-> P,
      cases |-> [n \in 1..(Pow2(P) + 3) |-> [n |-> n - 1, accept |-> AcceptUniform(n - 1, P),
                  table |-> IF AcceptUniform(n - 1, P) THEN Rows(UniformTable(n - 1, P)) ELSE <<>>]]])>>)
-Emit == EmitFixed /\ EmitFast /\ EmitLeaky /\ EmitLeakyBig /\ EmitUniform
+Emit == EmitFixed /\ EmitFast /\ EmitLeaky /\ EmitLeakyBig /\ EmitUniform /\ EmitDiag
 =============================================================================
